@@ -548,9 +548,12 @@ func (e *Env) apply(op Op) *Violation {
 			return Violf("Begin(true): %v", err)
 		}
 		if tx.ID() != e.LastTxid+1 {
-			return Violf("write tx id %d, want last committed %d + 1", tx.ID(), e.LastTxid)
+			id := tx.ID()
+			_ = tx.Rollback()
+			return Violf("write tx id %d, want last committed %d + 1", id, e.LastTxid)
 		}
 		if !tx.Writable() {
+			_ = tx.Rollback()
 			return Violf("Begin(true) returned a non-writable tx")
 		}
 		e.RW = &rwState{tx: tx, id: tx.ID(), m: e.Committed.Clone()}
